@@ -26,8 +26,8 @@ sink spells a null / missing BY value, so group counts do not add up to COUNT.
 (i) a PER bucket that starts before 1970 keeps its identity through the coordinator: the shards emit the bucket start as a signed integer; AggregateStreamMerger::parse_aggregate_row reads a negative
 Int64 / Timestamp bucket through a bit-preserving cast and does not send it through scalar_to_u64 (whose None for a negative value is the 'no bucket' key: all pre-1970 buckets would merge into null).
 """
-FLOOR = 19
-REQUIRED = ["C09.a1", "C09.a2", "C09.a3", "C09.b", "C09.c", "C09.d", "C09.e", "C09.f", "C09.g", "C09.h", "C09.i", "C09.j", "C09.k", "C09.l", "C09.m", "C09.n", "C09.o", "C09.p", "C09/C07.h"]
+FLOOR = 20
+REQUIRED = ["C09.a1", "C09.a2", "C09.a3", "C09.b", "C09.c", "C09.d", "C09.e", "C09.f", "C09.g", "C09.h", "C09.i", "C09.j", "C09.k", "C09.l", "C09.m", "C09.n", "C09.o", "C09.p", "C09.q", "C09/C07.h"]
 
 
 def run(ctx):
@@ -537,3 +537,29 @@ def run(ctx):
             bad.append(("float-metric-through-i64-view", "the Sum / Avg aggregate operators read their column through get_i64_at only: fractional values of a float field are skipped (TOTAL of 9.5, 0, 19.25, 99 is 99)", sp(hits[0][0], hits[0][1].bb)))
         return bad
     ctx.run("C09.p", "K10 READS", "read::aggregate::ops (Sum / Avg)", "numeric aggregates see fractional values", p_)
+
+    def q_(inst):
+        # an aggregate plan's evaluator has no event_type condition; the memtable holds every type, so the memtable
+        # source adds it: every use of the evaluator lies behind that addition (or behind "not an aggregate" / "*")
+        b = F.method("MemTableSource", "FlowSource", "run")
+        bp = one(b, r"ConditionEvaluatorBuilder::build_from_plan$")
+        adds = [c_ for c_ in b.find_calls(r"ConditionEvaluator::add_string_condition$") if "event_type" in {x for x in str_consts(b, c_.args[1], 2)}]
+        users = [c_ for c_ in b.calls if not c_.cleanup and re.search(r"MemTableSource::(collect_rows_from_memtable|push_rows_from_memtable)$", c_.nname)]
+        inst.sites = [sp(b, bp.bb)] + [sp(b, a_.bb) + " add event_type" for a_ in adds] + ["%d scans use the evaluator" % len(users)]
+        if not users:
+            raise AnchorMissing("row scans of MemTableSource::run")
+        if not adds:
+            return [("memtable-aggregate-any-type", "MemTableSource::run scans the memtable for an aggregate with the plan's evaluator as built: it has no event_type condition, and the memtable holds the events of every type (QUERY aa COUNT counts bb's unflushed events)", None)]
+        cut = []
+        for c_ in b.find_calls(r"Option::is_some$"):
+            if has_origin(b.origins(c_.args[0]), None, proj_contains=[".aggregate_plan"]):
+                cut += bool_result_edge(b, c_, False)
+        for c_ in b.calls:
+            if not c_.cleanup and re.search(r"::(ne|eq)$", c_.nname) and any(l[0] == "const" and l[1].strip('"') == "*" for a_ in c_.args for l in b.origins(a_)):
+                cut += bool_result_edge(b, c_, c_.nname.endswith("eq"))
+        seen = b.reach(0, cut_blocks=[a_.bb for a_ in adds], cut_edges=cut)
+        for u in users:
+            if u.bb in seen:
+                return [("memtable-aggregate-any-type", "a memtable scan of MemTableSource::run is reachable for an aggregate plan without the event_type condition having been added to the evaluator", sp(b, u.bb))]
+        return []
+    ctx.run("C09.q", "K2 CUT", "MemTableSource::run (aggregate plans)", "an aggregate over the memtable folds the events of its own type only", q_)
